@@ -40,7 +40,12 @@ from liquid.loader import BaseLoader, TemplateSource  # noqa: E402
 
 TOKEN_RE = re.compile(r"\[([a-z]+)\|([^|\]]*)\|([^|\]]*)\|(\d+)\]")
 NS_KEY = "uid"
-NAMESPACES = ["u1", "u2"]
+NAMESPACES = ["u1", "u2", 0]      # 0: a falsy but perfectly good namespace (user id 0)
+
+
+def nss(ns):
+    """Namespace as the loaders see it: '' for none, else its string form."""
+    return "" if ns is None else str(ns)
 
 
 # ---------------------------------------------------------------------------
@@ -309,7 +314,7 @@ class C23:
         idents = []
         for n in names:
             if realms[n] == "sim" and use_ns:
-                idents += [["sim", ns, n] for ns in ["", "u1", "u2"]]
+                idents += [["sim", ns, n] for ns in ["", "u1", "u2", "0"]]
             else:
                 idents.append([realms[n], "", n])
         initial = [i for i in idents if rng.chance(0.8)]
@@ -434,7 +439,7 @@ class C23:
         if realm is None:
             return None
         if realm == "sim":
-            return ("sim", ns or "", name)
+            return ("sim", nss(ns), name)
         return (realm, "", name)
 
     # -- execution ---------------------------------------------------------------
@@ -472,7 +477,7 @@ class C23:
         viol = res["violations"]
         w.fs.mkdir("root")
         # decoys: files that only a mis-routed request ("<ns>/<name>") could reach
-        for ns in NAMESPACES:
+        for ns in map(nss, NAMESPACES):
             for n in sc["names"]:
                 w.fs.write("root/%s/%s" % (ns, self._fs_rel(sc, n)), "[decoy|%s|%s|0]" % (ns, n), 0)
                 dict.__setitem__(w.dict_realm, "%s/%s" % (ns, n), "[decoy|%s|%s|0]" % (ns, n))
@@ -531,7 +536,7 @@ class C23:
 
         def cache_key_of(op):
             if sc["ns_key"] and op["ns"] is not None:
-                return "%s/%s" % (op["ns"], op["name"])
+                return "%s/%s" % (nss(op["ns"]), op["name"])
             return op["name"]
 
         def judge(op, inv, ret, got, loads_before, cancelled):
@@ -647,7 +652,7 @@ class C23:
                     continue
                 ns, name = "", k
                 if sc["ns_key"]:
-                    for u in NAMESPACES:
+                    for u in map(nss, NAMESPACES):
                         if k.startswith(u + "/"):
                             ns, name = u, k[len(u) + 1:]
                 ident = self._ident_for(sc, name, ns or None)
